@@ -12,3 +12,14 @@ package xbus
 //@   guarded_by Mutex: closed sizeQ pipes recvQLen sendQLen recvExpire recvQ
 //@   immutable: closeQ
 //@
+//@ func (*socket).SendMsg
+//@   loop 1 complete
+//@   at if#5.then assert p.p.ID() == ite(len(old(m.Header)) == 4, be32(old(m.Header)), 0)
+//@   at call:Clone#1 assert p.p.ID() != ite(len(old(m.Header)) == 4, be32(old(m.Header)), 0)
+//@   at select#1 assert len(old(m.Header)) == 4 ==> len(m.Header) == 0
+//@
+//@ func (*pipe).receiver
+//@   ghost body0 = result.Body at call:RecvMsg#1
+//@   at select#1 assert selidx == 0 ==> len(m.Header) == 4 && be32(m.Header) == p.p.ID()
+//@   at select#1 assert selidx == 0 ==> m.Body == body0 && same_elems(body0)
+//@   at call:Close#1 assert m == nil || selidx == 1
